@@ -594,13 +594,15 @@ func (c *Client) Do(m *Message, f func(Event)) error {
 	}
 	h := callbackWaitHandlerPool.Get().(*callbackWaitHandler) //nolint:forcetypeassert
 	h.setCallback(f)
-	defer func() {
-		callbackWaitHandlerPool.Put(h)
-	}()
 	if err := c.Start(m, h.handler); err != nil {
+		// The handler is not returned to the pool: a response that arrived
+		// while Start was still writing may already have marked it as
+		// processed, and the next Do to receive it would return before its
+		// own event (and that event would then find no callback).
 		return err
 	}
 	h.wait()
+	callbackWaitHandlerPool.Put(h)
 
 	return nil
 }
